@@ -110,3 +110,71 @@ def block_partner(stmt_a, pred_b):
         if s is not stmt_a and pred_b(s):
             return s
     return None
+
+
+def _base_name(e):
+    """`self.m2b_vertex` -> 'm2b_vertex', `map_m2b` -> 'map_m2b'."""
+    if isinstance(e, ast.Attribute):
+        return e.attr
+    if isinstance(e, ast.Name):
+        return e.id
+    return None
+
+
+def subscript_stores(fn):
+    """[(stmt, base_name, key_expr, value_expr)] for `X[k] = v` statements of fn."""
+    out = []
+    for st in au.stmts(fn.body):
+        if isinstance(st, ast.Assign) and len(st.targets) == 1 and isinstance(st.targets[0], ast.Subscript):
+            t = st.targets[0]
+            b = _base_name(t.value)
+            if b:
+                out.append((st, b, t.slice, st.value))
+    return out
+
+
+def inverse_map_pairs(ctx, rule, modname, fn, pairs, min_pairs=1):
+    """For each (fwd, bwd) name pair: every store fwd[k] = v has bwd[v] = k in the same block and
+    vice versa - the two dictionaries are mutually inverse by construction."""
+    stores = subscript_stores(fn)
+    n = 0
+    for fwd, bwd in pairs:
+        mine = [s for s in stores if s[1] in (fwd, bwd)]
+        for st, base, k, v in mine:
+            other = bwd if base == fwd else fwd
+            blk, _ = au.enclosing_block(st)
+            partner = [s for s in mine if s[1] == other and au.enclosing_block(s[0])[0] is blk
+                       and au.same(s[2], v) and au.same(s[3], k)]
+            n += 1
+            ctx.check(bool(partner), rule, ctx.site(modname, fn, st),
+                      f"`{au.src(st)}` has no inverse store `{other}[{au.src(v)}] = {au.src(k)}` in the same block",
+                      f"{fwd} and {bwd} must be mutually inverse index maps",
+                      note=f"{fwd}/{bwd} stored in lock-step")
+    if n < 2 * min_pairs:
+        ctx.fail(rule, ctx.site(modname, fn), f"index maps {pairs} are no longer filled by paired stores in {fn.name}",
+                 "the maps to and from the boundary must be built together")
+    return n
+
+
+def relation_pairs(ctx, rule, modname, fn, rel_a, rel_b, min_sites=1):
+    """`A[x].append|add(y)` must come with `B[y].append|add(x)` in the same block (inverse relations)."""
+    ins = []
+    for c in au.calls(fn):
+        if au.call_tail(c) in ("append", "add") and isinstance(c.func, ast.Attribute) \
+                and isinstance(c.func.value, ast.Subscript) and len(c.args) == 1:
+            b = _base_name(c.func.value.value)
+            if b in (rel_a, rel_b):
+                st = au.enclosing_stmt(c)
+                ins.append((st, b, c.func.value.slice, c.args[0], c))
+    for st, b, k, v, c in ins:
+        other = rel_b if b == rel_a else rel_a
+        blk, _ = au.enclosing_block(st)
+        partner = [s for s in ins if s[1] == other and au.enclosing_block(s[0])[0] is blk and au.same(s[2], v) and au.same(s[3], k)]
+        ctx.check(bool(partner), rule, ctx.site(modname, fn, c),
+                  f"`{au.src(c)}` has no inverse insertion `{other}[{au.src(v)}] <- {au.src(k)}` in the same block",
+                  f"{rel_a} and {rel_b} are inverse relations: y in A[x] iff x in B[y]",
+                  note=f"{rel_a}/{rel_b} inserted in lock-step")
+    if len(ins) < 2 * min_sites:
+        ctx.fail(rule, ctx.site(modname, fn), f"inverse relations {rel_a}/{rel_b} are no longer filled by paired insertions",
+                 "the two adjacency tables must be built together")
+    return len(ins)
